@@ -424,3 +424,6 @@ for _n, _h in list(HARNESSES.items()):
 # concrete); not pursued further (DESIGN.md section 11).  The harness functions stay in scen_fut.rs.
 for _n in ("c05_bcfut_uni_addstream", "c05_mpfut_uni_addstream", "c14_bc_send_vs_upoll"):
     HARNESSES.pop(_n, None)
+H("c11_bc_bothhandles_o1", L, "C11", ["C11", "C12", "C03", "C06"], "quick",
+  "broadcast: the last two handles of a stream are dropped at the same time (one drop preempted everywhere by the other and by a send); exactly one of them must remove the stream, afterwards only the remaining stream limits the sender",
+  "N=2, budget 2", rules=ADDRULES)
